@@ -85,6 +85,8 @@ inline void check_slots(
 
     run::note("slot checks");
     for (int c = 0; c < r.po.n; ++c) {
+        if (r.abstract_mask >> c & 1)
+            continue; // no object of an abstract class can be passed
         const gc::class_* cc = comp_class(b, c);
         if (!cc) {
             out.push_back({"class_missing", "class " + std::to_string(c)});
@@ -138,6 +140,9 @@ inline void check_slots(
     for (int mi = 0; mi < r.nm; ++mi) {
         const rx::Meth& m = r.meths[mi];
         rx::for_each_tuple(r.po, m, [&](const int8_t* a) {
+            for (int k = 0; k < m.arity; ++k)
+                if (r.abstract_mask >> a[k] & 1)
+                    return;
             COUNT("walks", 1);
             std::string bad;
             std::uintptr_t pf = checked_walk(b, r, mi, a, bad);
@@ -203,11 +208,16 @@ void for_each_method_set_registry(const SpaceSpec& sp, F&& f) {
             r.nm = (int)shapes.size();
             std::function<void(int)> rec = [&](int mi) {
                 if (mi == r.nm) {
-                    for (auto pres : sp.pres)
-                        for (int rev : sp.rev) {
-                            rx::present(r, pres, rev);
-                            f(r);
-                        }
+                    // abs=all: every assignment of abstract / concrete flags
+                    unsigned nmask = sp.kv.count("abs") && sp.kv.at("abs") == "all" ? 1u << n : 1u;
+                    for (unsigned am = 0; am < nmask; ++am)
+                        for (auto pres : sp.pres)
+                            for (int rev : sp.rev) {
+                                r.abstract_mask = (uint8_t)am;
+                                rx::present(r, pres, rev);
+                                f(r);
+                            }
+                    r.abstract_mask = 0;
                     return;
                 }
                 rx::Meth& m = r.meths[mi];
